@@ -259,4 +259,24 @@ theorem rows_spec (S : MLStructure) (hL : S.bs.length = S.bidx.length) (hr : InR
   rw [this, List.map_map]
   rfl
 
+/-- **partial Kronecker product**: `kron_partial(As, rows, restrict)` produces, row by row in the
+order of `rows`, exactly the positions of the Kronecker pattern lying in that row, each with the
+value `∏_k A_k[I_k, J_k]` of the full Kronecker product at that position; with `restrict` the
+row index is the position of the row in `rows`. -/
+theorem kron_partial_spec (As : List SpMat) (rows : List Nat) (restrict : Bool)
+    (hr : InRange (fromKronecker As).bidx (fromKronecker As).bs)
+    (hR : ∀ r ∈ rows, r < prod (fromKronecker As).rows) :
+    kronPartialRaw As rows restrict = rows.zipIdx.flatMap (fun ri =>
+      (((fromKronecker As).nonzeroSpec false).filter (fun p => p.1 = ri.1)).map
+        (fun p => ((if restrict then ri.2 else ri.1), p.2, kronValue As ri.1 p.2))) := by
+  unfold kronPartialRaw
+  rw [rows_spec _ (by simp [fromKronecker]) hr rows hR, List.map_flatMap]
+  apply flatMap_congr'
+  intro ri _
+  rw [List.map_map]
+  rfl
+
+example : kronPartialRaw [⟨2, 2, [(0,0,2),(1,1,3)]⟩, ⟨1, 2, [(0,0,5),(0,1,7)]⟩] [1] true
+    = [(0,2,15),(0,3,21)] := by decide
+
 end Pyiga.Props.C15
